@@ -601,6 +601,11 @@ class Gen:
                     if norm(n["a"]["text"]) == norm(a):
                         ed.replace(n["s"], n["e"], b, ("rule", "R9-typesubst"))
                         self.fired("R9-typesubst")
+            if n["k"] == "FieldDef" and "(" in n["a"].get("vis", ""):
+                f0 = max([a["e"] for a in kids(n, kind="Attr")] + [n["s"]])
+                mv = re.match(rb"\s*pub\s*\([^)]*\)", src.bytes[f0:f0 + 40])
+                if mv:
+                    ed.replace(f0, f0 + mv.end(), " pub", ("rule", "vis"))
             if n["k"] == "FieldDef" and "vis" not in n["a"] and n["p"]["k"] == "StructDef":
                 # private fields: make visible to spec functions in the same file (no semantic effect)
                 ed.insert(n["s"] if not kids(n, kind="Attr") else kids(n, kind="Attr")[-1]["e"], " pub ", ("rule", "vis"))
@@ -1341,6 +1346,23 @@ class Gen:
                 else:
                     raise Inconclusive(f"unsupported construct: str range at {src.rel}:{src.line_of(n['s'])}")
                 self.fired("R27")
+
+        # R37: `X.to_owned().unwrap_or_default()` / `X.clone().unwrap_or_default()`  ->  __clone_or_default(&X)
+        # R38: `V.join("\n")` on a Vec<String>  ->  __join_newline(&V)
+        for n in walk(body):
+            if n["k"] != "MethodCall" or any(a0 <= n["s"] and n["e"] <= b0 for a0, b0 in dead):
+                continue
+            if n["a"]["method"] == "unwrap_or_default" and not kids(n, "arg") and kid(n, "receiver")["k"] == "MethodCall" \
+                    and kid(n, "receiver")["a"]["method"] in ("to_owned", "clone") and not kids(kid(n, "receiver"), "arg"):
+                X = kid(kid(n, "receiver"), "receiver")
+                ed.replace(n["s"], X["s"], "__clone_or_default(&", ("rule", "R37"))
+                ed.replace(X["e"], n["e"], ")", ("rule", "R37"))
+                self.fired("R37")
+            elif n["a"]["method"] == "join" and len(kids(n, "arg")) == 1 and kids(n, "arg")[0]["a"].get("lit") == '"\\n"':
+                X = kid(n, "receiver")
+                ed.replace(n["s"], X["s"], "__join_newline(&", ("rule", "R38"))
+                ed.replace(X["e"], n["e"], ")", ("rule", "R38"))
+                self.fired("R38")
 
         # R15: X.clone().or_else(|| Y.clone())  ->  __clone_or_else(&X, &Y)   (X, Y verbatim)
         # R14: V.extend(E)                       ->  __vec_extend(&mut V, E)
